@@ -50,6 +50,7 @@ const char *hx_arg_str(json_t *args, const char *key);    /* NULL if absent / no
 
 size_t hx_refsum(json_t *j);
 json_t *hx_tmpl(json_t *args, const char *key);
+bool hx_tmpl_refs_ok(json_t *tmpl, json_t *owner, const char *plural);
 
 #define CANARY 32
 #define CANARY_BYTE 0xA5
